@@ -19,7 +19,7 @@ import (
 
 // C16 — POST-binding forms deliver message and relay state intact; no HTML injection.
 
-var c16Relay = []string{"", "plain", `"><script>alert(1)</script>`, `' onmouseover='x`, "a&b", "&quot;", "line1\nline2", "</form>", "ünï", "a b", "`backtick`", `back\slash`, "{{.}}", "a+b", "<!--", "&#34;", `" autofocus onfocus="x`, "\x00nul", "</script><script>alert(1)</script>", " lead", "trail ", " ", "line\u2028sep"}
+var c16Relay = []string{"", "plain", `"><script>alert(1)</script>`, `' onmouseover='x`, "a&b", "&quot;", "line1\nline2", "</form>", "ünï", "a b", "`backtick`", `back\slash`, "{{.}}", "a+b", "<!--", "&#34;", `" autofocus onfocus="x`, "\x00nul", "</script><script>alert(1)</script>", " lead", "trail ", " ", "line\u2028sep", `é" autofocus onfocus=alert(1) x="`, `日本語"><script>alert(1)</script>`, "ü&amp;<b>", "😀'onmouseover='x"}
 var c16Builders = []string{"BuildAuthBodyPost", "BuildAuthBodyPostFromDocument", "BuildLogoutBodyPostFromDocument", "BuildLogoutResponseBodyPostFromDocument"}
 var c16Docs = []string{"signed", "unsigned", "non-ascii"}
 var c16Endpoints = []string{"https://idp.example.com/sso", "https://idp.example.com/sso?tenant=a&mode=b"}
@@ -274,7 +274,7 @@ func c16Replay(raw json.RawMessage) ([]string, string) {
 }
 
 func c16Run(r *mc.Run) {
-	r.Rule = "full product relay state(23: quotes, angle brackets, script and attribute-injection payloads, ampersands, character references, newline, U+2028, backtick, backslash, template syntax, plus, comment opener, NUL) x builder(4) x document(3: signed, unsigned, non-ASCII) x endpoint(2: plain, with & query) x SignAuthnRequests(2, BuildAuthBodyPost); oracle = a strict HTML tokenizer: exact token sequence (one form, the message field, RelayState iff non-empty, the submit button, the fixed scripts), exact attribute sets, message field = base64 of exactly the document, RelayState decoding to exactly the value. non-trivial = a page was produced and tokenized; distinct = distinct case"
+	r.Rule = "full product relay state(27: quotes, angle brackets, script and attribute-injection payloads, ampersands, character references, newline, U+2028, backtick, backslash, template syntax, plus, comment opener, NUL) x builder(4) x document(3: signed, unsigned, non-ASCII) x endpoint(2: plain, with & query) x SignAuthnRequests(2, BuildAuthBodyPost); oracle = a strict HTML tokenizer: exact token sequence (one form, the message field, RelayState iff non-empty, the submit button, the fixed scripts), exact attribute sets, message field = base64 of exactly the document, RelayState decoding to exactly the value. non-trivial = a page was produced and tokenized; distinct = distinct case"
 	var cases []c16Case
 	mc.Enumerate(-1, r.Expired, func(ch *mc.Chooser) {
 		c := c16Case{}
